@@ -86,6 +86,36 @@ impl Check for C10 {
             let at = rng.range(1, ops.len());
             ops.truncate(at);
         }
+        // rejected calls in between must not disturb the guarantees for the calls that follow
+        // (C19 says they leave no trace; here the streaming invariants are checked after them)
+        if rng.chance(1, 3) && !ops.is_empty() {
+            // positions and chains refer to the valid history; the failing calls are merged in afterwards
+            let valid: Vec<WOp> = ops.iter().filter(|o| !matches!(o, WOp::Flush)).cloned().collect();
+            let mut ins: Vec<(usize, WOp)> = Vec::new();
+            for _ in 0..rng.range(1, 2) {
+                let at = rng.range(0, valid.len());
+                let fc = crate::checks::c19::failing_calls(&mut rng, &spec, &valid, at);
+                if !fc.is_empty() {
+                    ins.push((at, rng.pick(&fc).0.clone()));
+                }
+            }
+            let had_flush = matches!(ops.last(), Some(WOp::Flush));
+            let mut merged = Vec::new();
+            for p in 0..=valid.len() {
+                for (q, op) in &ins {
+                    if *q == p {
+                        merged.push(op.clone());
+                    }
+                }
+                if p < valid.len() {
+                    merged.push(valid[p].clone());
+                }
+            }
+            if had_flush {
+                merged.push(WOp::Flush);
+            }
+            ops = merged;
+        }
         Case { spec, ops, wscript: io::gen_wscript(&mut rng) }
     }
 
@@ -98,10 +128,35 @@ impl Check for C10 {
         if let Some(p) = &w.panic {
             fail!("writer-panic", "{}\n calls: {}", p, describe(&c.ops));
         }
-        if !w.all_ok() {
+        // rejected calls are, by C19, as if never made: the model follows the accepted calls only
+        if !matches!(w.into_inner, Some(Ok(()))) {
             st.inc("writer_rejected");
             return Ok(ExecOk { nontrivial: false });
         }
+        let rejected = w.results.iter().filter(|r| r.is_err()).count();
+        if rejected > 0 {
+            st.inc("probe_histories_with_rejected_calls");
+        }
+        let all_ops = &c.ops;
+        let acc_idx: Vec<usize> = (0..all_ops.len()).filter(|i| w.results[*i].is_ok()).collect();
+        let acc_ops: Vec<WOp> = acc_idx.iter().map(|i| all_ops[*i].clone()).collect();
+        let acc_delivered: Vec<usize> = acc_idx.iter().map(|i| w.delivered_after[*i]).collect();
+        // a rejected call must not change what the destination holds
+        for i in 0..all_ops.len() {
+            if w.results[i].is_err() {
+                let before = if i == 0 { 0 } else { w.delivered_after[i - 1] };
+                if w.delivered_after[i] != before {
+                    fail!("rejected-call-delivered-bytes", "call {} ({}) was rejected but the destination grew from {} to {} bytes\n calls: {}", i, all_ops[i].short(), before, w.delivered_after[i], describe(all_ops));
+                }
+            }
+        }
+        if wcases::ambiguous_history(&c.spec, &acc_ops) {
+            // excluded by the properties themselves (matters for shrunk cases)
+            st.inc("out_of_scope_ambiguous");
+            return Ok(ExecOk { nontrivial: false });
+        }
+        let c = &Case { spec: c.spec.clone(), ops: acc_ops, wscript: c.wscript.clone() };
+        let w_delivered_after = acc_delivered;
         let fin = &w.out;
         // (a) never retracted or altered: same bytes as through a sink that takes every write whole,
         // and the sink only ever grew
@@ -139,7 +194,7 @@ impl Check for C10 {
         }
         let mut nontrivial = false;
         for i in 0..c.ops.len() {
-            let d = w.delivered_after[i];
+            let d = w_delivered_after[i];
             let prefix = &c.ops[..=i];
             let open = wcases::open_after(prefix);
             // index (among all Starts written so far) of each open master: replay the prefix
